@@ -1,0 +1,122 @@
+//go:build verif
+
+package encoder
+
+// Verification hooks (build tag `verif` only): re-export the unexported stages of the QR encoder for the
+// /verif correspondence harness (work package qrenc, properties C07/C01/C13/C12).
+// Nothing here changes behaviour; without the tag the file is not compiled.
+
+import (
+	textencoding "golang.org/x/text/encoding"
+
+	"github.com/makiuchi-d/gozxing"
+	"github.com/makiuchi-d/gozxing/qrcode/decoder"
+)
+
+func VerifChooseMode(content string, encoding textencoding.Encoding) *decoder.Mode {
+	return chooseMode(content, encoding)
+}
+
+func VerifIsOnlyDoubleByteKanji(content string) bool { return isOnlyDoubleByteKanji(content) }
+
+func VerifAppendModeInfo(mode *decoder.Mode, bits *gozxing.BitArray) { appendModeInfo(mode, bits) }
+
+func VerifAppendLengthInfo(numLetters int, version *decoder.Version, mode *decoder.Mode, bits *gozxing.BitArray) gozxing.WriterException {
+	return appendLengthInfo(numLetters, version, mode, bits)
+}
+
+func VerifAppendBytes(content string, mode *decoder.Mode, bits *gozxing.BitArray, encoding textencoding.Encoding) gozxing.WriterException {
+	return appendBytes(content, mode, bits, encoding)
+}
+
+func VerifTerminateBits(numDataBytes int, bits *gozxing.BitArray) gozxing.WriterException {
+	return terminateBits(numDataBytes, bits)
+}
+
+func VerifGetNumDataBytesAndNumECBytesForBlockID(numTotalBytes, numDataBytes, numRSBlocks, blockID int) (int, int, gozxing.WriterException) {
+	return getNumDataBytesAndNumECBytesForBlockID(numTotalBytes, numDataBytes, numRSBlocks, blockID)
+}
+
+func VerifInterleaveWithECBytes(bits *gozxing.BitArray, numTotalBytes, numDataBytes, numRSBlocks int) (*gozxing.BitArray, gozxing.WriterException) {
+	return interleaveWithECBytes(bits, numTotalBytes, numDataBytes, numRSBlocks)
+}
+
+func VerifGenerateECBytes(dataBytes []byte, numEcBytesInBlock int) ([]byte, gozxing.WriterException) {
+	return generateECBytes(dataBytes, numEcBytesInBlock)
+}
+
+func VerifCalculateBitsNeeded(mode *decoder.Mode, headerBits, dataBits *gozxing.BitArray, version *decoder.Version) int {
+	return calculateBitsNeeded(mode, headerBits, dataBits, version)
+}
+
+func VerifWillFit(numInputBits int, version *decoder.Version, ecLevel decoder.ErrorCorrectionLevel) bool {
+	return willFit(numInputBits, version, ecLevel)
+}
+
+func VerifChooseVersion(numInputBits int, ecLevel decoder.ErrorCorrectionLevel) (*decoder.Version, gozxing.WriterException) {
+	return chooseVersion(numInputBits, ecLevel)
+}
+
+func VerifRecommendVersion(ecLevel decoder.ErrorCorrectionLevel, mode *decoder.Mode, headerBits, dataBits *gozxing.BitArray) (*decoder.Version, gozxing.WriterException) {
+	return recommendVersion(ecLevel, mode, headerBits, dataBits)
+}
+
+func VerifChooseMaskPattern(bits *gozxing.BitArray, ecLevel decoder.ErrorCorrectionLevel, version *decoder.Version, matrix *ByteMatrix) (int, gozxing.WriterException) {
+	return chooseMaskPattern(bits, ecLevel, version, matrix)
+}
+
+func VerifCalculateMaskPenalty(matrix *ByteMatrix) int { return calculateMaskPenalty(matrix) }
+
+func VerifApplyMaskPenaltyRule1Internal(matrix *ByteMatrix, isHorizontal bool) int {
+	return applyMaskPenaltyRule1Internal(matrix, isHorizontal)
+}
+
+func VerifIsWhiteHorizontal(rowArray []int8, from, to int) bool { return isWhiteHorizontal(rowArray, from, to) }
+
+func VerifIsWhiteVertical(array [][]int8, col, from, to int) bool {
+	return isWhiteVertical(array, col, from, to)
+}
+
+func VerifClearMatrix(matrix *ByteMatrix) { clearMatrix(matrix) }
+
+func VerifEmbedBasicPatterns(version *decoder.Version, matrix *ByteMatrix) gozxing.WriterException {
+	return embedBasicPatterns(version, matrix)
+}
+
+func VerifEmbedTypeInfo(ecLevel decoder.ErrorCorrectionLevel, maskPattern int, matrix *ByteMatrix) gozxing.WriterException {
+	return embedTypeInfo(ecLevel, maskPattern, matrix)
+}
+
+func VerifMaybeEmbedVersionInfo(version *decoder.Version, matrix *ByteMatrix) gozxing.WriterException {
+	return maybeEmbedVersionInfo(version, matrix)
+}
+
+func VerifEmbedDataBits(dataBits *gozxing.BitArray, maskPattern int, matrix *ByteMatrix) gozxing.WriterException {
+	return embedDataBits(dataBits, maskPattern, matrix)
+}
+
+func VerifFindMSBSet(value int) int { return findMSBSet(value) }
+
+func VerifCalculateBCHCode(value, poly int) (int, error) { return calculateBCHCode(value, poly) }
+
+func VerifMakeTypeInfoBits(ecLevel decoder.ErrorCorrectionLevel, maskPattern int, bits *gozxing.BitArray) gozxing.WriterException {
+	return makeTypeInfoBits(ecLevel, maskPattern, bits)
+}
+
+func VerifMakeVersionInfoBits(version *decoder.Version, bits *gozxing.BitArray) gozxing.WriterException {
+	return makeVersionInfoBits(version, bits)
+}
+
+func VerifEmbedTimingPatterns(matrix *ByteMatrix) { embedTimingPatterns(matrix) }
+
+func VerifEmbedDarkDotAtLeftBottomCorner(matrix *ByteMatrix) gozxing.WriterException {
+	return embedDarkDotAtLeftBottomCorner(matrix)
+}
+
+func VerifEmbedPositionDetectionPatternsAndSeparators(matrix *ByteMatrix) gozxing.WriterException {
+	return embedPositionDetectionPatternsAndSeparators(matrix)
+}
+
+func VerifMaybeEmbedPositionAdjustmentPatterns(version *decoder.Version, matrix *ByteMatrix) {
+	maybeEmbedPositionAdjustmentPatterns(version, matrix)
+}
